@@ -22,7 +22,17 @@ HOW = {
  "c20-8": "quick tier: 40 shares 1..40 and 24 shares with the indexes 232..255 (index products beyond degree 128); the thorough tier had every k = 7..64 already",
  "c14-11": "`from_bytes` is called twice from ONE carrier object (bytes, bytearray, memoryview): the buffer must read the same and the second value equal the first",
 }
+WAVE4 = {"c02-10", "c02-11", "c03-10", "c03-11", "c08-10", "c08-11", "c12-10", "c12-11", "c12-12", "c13-10", "c13-11", "c16-10", "c16-11", "c16-12"}
+import sys
+WANT4 = len(sys.argv) > 1 and sys.argv[1] == "4"
+HOW.update({"c08-11": "the Edwards public key with the other sign of x (an equality near miss of the thorough tier) moved into the quick tier"})
+
+
 def wave3(s):
+    if WANT4:
+        return s in WAVE4
+    if s in WAVE4:
+        return False
     p, n = s.split("-"); n = int(re.match(r"\d+", n).group())
     if p in ("c19", "c09", "c15"): return n >= 8
     if p == "c17": return n >= 6
